@@ -176,6 +176,7 @@ TABLE = {
     'curve_interpolate': ([q, basis, qlist, lst(qlist)], 'match q_curve_interpolate {0} {1} {2} {3} with Ok o => Ok (o_cps o) | Err e => Err e end', res(lst(qlist))),
     'curve_lsq': ([q, basis, qlist, lst(qlist)], 'match q_curve_lsq {0} {1} {2} {3} with Ok o => Ok (o_cps o) | Err e => Err e end', res(lst(qlist))),
     'g2_encode': ([obj], 'q_g2_encode [{0}]', lst(qlist)),
+    'disc_square_net': ([q, q], 'q_disc_square_net {0} {1}', lst(qlist)),
     'number_model': ([lst(natlist)], 'let r := x_number_model {0} in (snd r, fst r)', pair(nat, lst(natlist))),
     'eval_grid': ([q, obj, lst(qlist)], 'q_obj_eval_grid {0} {1} {2}', res(lst(qlist))),
     'eval_pointwise': ([q, obj, lst(qlist)], 'q_obj_eval_pointwise {0} {1} {2}', res(lst(qlist))),
